@@ -84,6 +84,7 @@ class ReflexiveTransitiveAccesss""")], 'C04.R6'),
         ('node-designation-filter-removed', [(RULES, "    NodeFilters = group(filters.NodeDesignation, filters.NodeType)", "    NodeFilters = group(filters.NodeType)")], 'C04.R0'),
     ],
     'C05': [
+        ('self-existence-not-completed', [(CPL, "            self._ensure_self_existence(w)\n", "")], 'C05.R4'),
         ('read-node-table-swapped', [(MODELS, "                base = 'FNTB'", "                base = 'FNBT'")], 'C05.R3'),
         ('gap-closure-any-designation', [(LP, "            if node['designated'] is False:", "            if node['designated'] is not None:")], 'C05.R'),
         ('designation-closure-other-world', [(FDE, "return branch.find(sdwnode(s, not node['designated'], node.get('world')))", "return branch.find(sdwnode(s, not node['designated'], None))")], 'C05.R1'),
@@ -132,6 +133,7 @@ class ReflexiveTransitiveAccesss""")], 'C04.R6'),
         ('helper-resets-nextconst', [(HELPERS, "        self[branch][w1].add(w2)\n", "        self[branch][w1].add(w2)\n            branch._nextworld = w2\n")], 'C06.R2'),
     ],
     'C01': [
+        ('closing-rule-closes-every-open-branch', [(RULES, "        target.branch.close()\n", "        for b in list(self.tableau.open):\n            b.close()\n")], 'C01.R4'),
         ('premature-cleared-when-limit-hit', [(TAB, """                if not self._is_max_steps_exceeded():
                     entry = self.next()
                     if entry is None:
@@ -272,6 +274,8 @@ TEXTW = 'pytableaux/proof/writers/doctree/text.py'
 
 MUTANTS.update({
     'C08': [
+        ('access-add-forgets-target-world', [(MODELS, "            self[w1].add(w2)\n            self[w2]\n", "            self[w1].add(w2)\n")], 'C08.R4'),
+        ('access-has-any-successor', [(MODELS, "            return w1 in self and w2 in self[w1]\n", "            return w1 in self and bool(self[w1])\n")], 'C08.R4'),
         ('mh-existential-both-n-and-f', [(MH, """        if len(valset) > 1:
             return values.N
         return values.F""", """        if len(valset) > 1:
@@ -332,6 +336,8 @@ class GlobalAccess""")], None),
         ('build-stops-after-one-step', [(TAB, "        for _ in self.stepiter(): pass\n        return self", "        for _ in self.stepiter(): break\n        return self")], None),
     ],
     'C12': [
+        ('parse-table-drops-whitespace-default', [(PARSING, "        mapping = dict(data['mapping'])\n", "        mapping = dict(data['mapping'])\n        mapping.pop(' ', None)\n")], 'C12.R'),
+        ('string-table-defaults-override', [(WRITING, "            strings.setdefault(key, strings[defaultkey])\n", "            strings[key] = strings[defaultkey]\n")], 'C12.R4'),
         ('polish-string-swapped-operators', [(SYMDATA, "            Operator.Conjunction: 'K',\n            Operator.Disjunction: 'A',", "            Operator.Conjunction: 'A',\n            Operator.Disjunction: 'K',")], 'C12.R1'),
         ('polish-parse-table-missing-constant', [(SYMDATA, "            's' : (Constant, 3),\n", "")], 'C12.R1'),
         ('two-symbols-same-string', [(SYMDATA, "        Operator.Necessity              :  'N',\n        Quantifier.Universal   : 'L',", "        Operator.Necessity              :  'L',\n        Quantifier.Universal   : 'L',")], 'C12.R2'),
@@ -450,6 +456,8 @@ class GlobalAccess""")], None),
             pop(pred, None)""")], 'C18.R'),
     ],
     'C19': [
+        ('walk-departs-after-skipnode', [(NODES, "        except SkipNode:\n            return\n", "        except SkipNode:\n            pass\n")], 'C19.R1'),
+        ('default-visitor-not-used', [('pytableaux/proof/writers/doctree/__init__.py', "        except AttributeError:\n            return self.default_visitor\n", "        except AttributeError:\n            raise\n")], 'C19.R1'),
         ('text-translator-loses-visit', [(TEXTW, "    visit_subscript = noop\n", "")], 'C19.R1'),
         ('marking-key-missing-in-latex', [(SYMDATA, "            (Marking.tableau, 'access'): '\\\\mathcal{R}',\n", "")], 'C19.R2'),
         ('access-nodes-not-rendered', [(NODES, """        elif isinstance(obj, proof.AccessNode):
